@@ -373,13 +373,20 @@ func runEngineCase(c engineCase) (res engineResult) {
 func init() {
 	handlers["engine"] = func(req json.RawMessage) (any, error) {
 		var in struct {
-			Cases []engineCase `json:"cases"`
+			Cases  []engineCase `json:"cases"`
+			Serial bool         `json:"serial"` // one case at a time (sensitive to package-level state in /repo)
 		}
 		if err := json.Unmarshal(req, &in); err != nil {
 			return nil, err
 		}
 		out := make([]engineResult, len(in.Cases))
-		parallel(len(in.Cases), func(i int) { out[i] = runEngineCase(in.Cases[i]) })
+		if in.Serial {
+			for i := range in.Cases {
+				out[i] = runEngineCase(in.Cases[i])
+			}
+		} else {
+			parallel(len(in.Cases), func(i int) { out[i] = runEngineCase(in.Cases[i]) })
+		}
 		return map[string]any{"results": out}, nil
 	}
 }
